@@ -124,7 +124,11 @@ def run_cases(mod, ctx, driver_ok):
                 st["model_lines"] += 1
             ok, exp = check_spec(mod, c, r)
             rec = None
-            if m is not None and not EQ(r, m):
+            if m is not None and not EQ(r, m) and c.get("amplified") and float_boundary(c["real"], m, EQ):
+                # an amplified neighbour that sits on a rounding boundary of the real (floating-point) code: the code
+                # itself gives the model's exact-arithmetic answer when a float argument moves by one part in 10^12
+                st["amplified_float_boundary"] = st.get("amplified_float_boundary", 0) + 1
+            elif m is not None and not EQ(r, m):
                 rec = dict(kind="correspondence", op=c.get("op"), real=c["real"], got=r, model=m, expected=exp,
                            spec_ok=ok, tag=tag, info=c.get("info"))
                 st["mismatches"].append(rec)
@@ -193,6 +197,25 @@ def run_cases(mod, ctx, driver_ok):
                              json.dumps([x[0] for x in sample[max(0, i - 5):i]], default=str)[:1500])))
     gen.finish(st)
     return st
+
+
+def float_boundary(real, m, EQ):
+    """is the model's answer what the real call returns when its float arguments are moved by a relative 1e-12?"""
+    args = list(real[1])
+    idx = [i for i, a in enumerate(args) if isinstance(a, float)]
+    if not idx or len(idx) > 3:
+        return False
+    import itertools
+    for signs in itertools.product((0, -1, 1), repeat=len(idx)):
+        if not any(signs):
+            continue
+        a2 = list(args)
+        for i, sg in zip(idx, signs):
+            a2[i] = args[i] + sg * max(abs(args[i]), 1.0) * 1e-12
+        r2 = eval_real((real[0], a2))
+        if EQ(r2, m) or outputs_equal(r2, m):
+            return True
+    return False
 
 
 def main():
@@ -390,6 +413,7 @@ def check(prop, tier, seed, t0, no_build=False):
             correspondence_disagreements=len(st["mismatches"]), spec_failures=len(st["specfails"]),
             known_findings_seen=sorted(known_hits.keys()), broken_obligations=broken, escalated=ctx.escalate,
             purity_replays=st["purity_replays"],
+            amplified_cases_on_float_rounding_boundary=st.get("amplified_float_boundary", 0),
             generated_model=dict(
                 translator="harness/py2lean.py (regenerated from the working tree on this run: %s)" % ctx.tie.get("regenerated"),
                 translator_summary=ctx.tie.get("translator"),
